@@ -1,11 +1,11 @@
 CONFIG = {
     "id": "C01",
-    "coq_targets": ["Props/C01.v", "Model/DeterminismCheck.v"],
+    "coq_targets": ["Props/C01.v", "Model/DeterminismCheck.v", "Proofs/GlobalsProofs.v"],
     "prop_files": ["Props/C01.v"],
     # Gen/Sites.v: every map-iteration site (with its schema classification) and every use of ambient
     # randomness / clock / environment / goroutines (with reachability from simulation.Run), regenerated
     # from the Go source by harness/cmd/go2coq on every run
-    "gen": ["Sites"],
+    "gen": ["Sites", "Globals"],   # Globals: no reachable run-time write of a package-level variable (cross-run state breaks "same process or a fresh one")
     "components": [{
         "name": "determinism", "modules": ["Model.Determinism", "Model.DeterminismCheck"],
         "check": "check_case", "monitor": "monitor_case", "model_out": "model_out",
